@@ -18,7 +18,7 @@
    PolyLists.v proves the laws for that instance from C08's theorems, for every field; the instance over
    C08.Model.ZpDom p is what is extracted and run against the C++ code. *)
 From Coq Require Import ZArith Bool List.
-From C08 Require Model.
+From C08 Require Model Fp.
 Import ListNotations.
 Local Open Scope Z_scope.
 
@@ -114,7 +114,19 @@ Section Lists.
   Definition lratrecon6 (P M : list T) (dk : Z) (forcereduce : bool) := lout (pratrecon6_g LOps P M dk forcereduce).
 End Lists.
 
-(* Z-level wrappers extracted for the correspondence run: coefficients in Z/p (C08.Model.ZpDom) *)
-Definition zp_ratrecon5 (p : Z) (kthr sthr : nat) := lratrecon5 (Model.ZpDom p) kthr sthr.
-Definition zp_ratreconcheck (p : Z) (kthr sthr : nat) := lratreconcheck (Model.ZpDom p) kthr sthr.
-Definition zp_ratrecon6 (p : Z) (kthr sthr : nat) := lratrecon6 (Model.ZpDom p) kthr sthr.
+(* Z-level wrappers extracted for the correspondence run.  The coefficient domain is C08.Fp.FpDom q: the carrier is the subset type
+   of canonical residues { z | 0 <= z < q } (extraction erases the proof component: the extracted code computes on plain
+   integers), so that C08's field laws FieldOK HOLD for the executed instance when q is prime (C08.ProofsFp.FpDom_ok) and the list
+   theorems of PolyLists.v apply to exactly these functions (PolyLists.v: Fp_ratrecon_sound ...).  `inl` injects the integers
+   of the input line (z mod q), `outl` projects the results; the modulus of the line is a positive (qof p). *)
+Definition fout {q : positive} (r : option (bool * list (Fp.Fp q) * list (Fp.Fp q))) : option (bool * list Z * list Z) :=
+  match r with
+  | None => None
+  | Some (ok, N, Dn) => Some (ok, Fp.outl N, Fp.outl Dn)
+  end.
+Definition zp_ratrecon5 (p : Z) (kthr sthr : nat) (P M : list Z) (dk : Z) :=
+  fout (lratrecon5 (Fp.FD p) kthr sthr (Fp.inl p P) (Fp.inl p M) dk).
+Definition zp_ratreconcheck (p : Z) (kthr sthr : nat) (P M : list Z) (dk : Z) :=
+  fout (lratreconcheck (Fp.FD p) kthr sthr (Fp.inl p P) (Fp.inl p M) dk).
+Definition zp_ratrecon6 (p : Z) (kthr sthr : nat) (P M : list Z) (dk : Z) (forcereduce : bool) :=
+  fout (lratrecon6 (Fp.FD p) kthr sthr (Fp.inl p P) (Fp.inl p M) dk forcereduce).
